@@ -1,6 +1,6 @@
 SPECIFICATION Spec
 CONSTANT Stride = 9
-CONSTANT Thin = 4
+CONSTANT Thin = 6
 CONSTANT Sample = 2
 INVARIANT Emit
 INVARIANT NonVacuous
